@@ -6,11 +6,15 @@ EXTENDS Builtins, Valid, Package, Json, IOUtils
 T_ == ndJsonDeserialize(IOEnv.TRACE_FILE)
 VARIABLE l
 (* nser = 1 is a plain wrapper *)
-Expected(e) == IF e.kind = "wrapper" \/ e.n = 1 THEN WrapperDesign(e.U, e.of, e.ports, e.bports) ELSE SeriesDesign(e.U, e.of, e.ports, e.a, e.b, e.n)
+(* e.inames: the names of the instances of the generated module, in order, as found in the package *)
+Expected(e) == IF e.kind = "wrapper" \/ e.n = 1 THEN WrapperDesign(e.U, e.of, e.ports, e.bports, e.inames)
+               ELSE SeriesDesign(e.U, e.of, e.ports, e.a, e.b, e.n, e.inames)
+WantInsts(e) == IF e.kind = "wrapper" THEN 1 ELSE e.n
 Supported(e) == (e.kind = "wrapper") \/ ((\A j \in 1..Len(e.ports) : (e.ports[j].n \in {e.a, e.b}) => e.ports[j].w = 1) /\ (Len(e.bports) = 0))
 Clause(e) ==
   IF e.raised THEN (IF Supported(e) THEN "rejected" ELSE "")
   ELSE IF ~Supported(e) THEN ""          \* nothing is specified for a non-scalar series port or a bundle-port unit that was accepted
+  ELSE IF Len(e.inames) # WantInsts(e) \/ Cardinality({e.inames[k] : k \in DOMAIN e.inames}) # Len(e.inames) THEN "instance_count"
   ELSE LET D == Expected(e) IN
        IF PkgFaults(e.P) # {} THEN "package_malformed:" \o ToString(PkgFaults(e.P))
        ELSE IF PLeafTable(e.P, e.P.top, <<>>) # LeafTable(D, D.top, <<>>) THEN "leaf_table"
